@@ -80,8 +80,15 @@ func readProgress(path string, fams []Family) []CaseRef {
 	return out
 }
 
+// BlockedTicks is the number of consecutive idle watchdog ticks after which an in-flight case counts as blocked.
+const BlockedTicks = 120
+
 func threadCPU(tid int64) float64 {
-	b, err := os.ReadFile("/proc/self/task/" + strconv.FormatInt(tid, 10) + "/stat")
+	return threadCPUFile("/proc/self/task/" + strconv.FormatInt(tid, 10) + "/stat")
+}
+
+func threadCPUFile(path string) float64 {
+	b, err := os.ReadFile(path)
 	if err != nil {
 		return -1
 	}
@@ -169,11 +176,43 @@ func RunChild(p *Prop, cfg *Config) int {
 		cpu0 := make([]float64, len(workers))
 		t := time.NewTicker(time.Second)
 		defer t.Stop()
+		// blocked-process detector: the unit is one tick of THIS goroutine (at least a second apart, and only counted
+		// when this goroutine was actually scheduled). If the whole process consumes no CPU for BlockedTicks consecutive
+		// ticks while a case is in flight, every goroutine that matters is waiting for something that does not come
+		// (a semaphore slot that was leaked, a lock, a channel): the call does not return. A frozen or starved machine
+		// does not advance the count, because then this goroutine does not tick either.
+		procCPU := threadCPUFile("/proc/self/stat")
+		idleTicks := 0
 		for {
 			select {
 			case <-stop:
 				return
 			case <-t.C:
+				if c := threadCPUFile("/proc/self/stat"); c >= 0 {
+					if c-procCPU < 0.05 {
+						idleTicks++
+					} else {
+						idleTicks = 0
+					}
+					procCPU = c
+				}
+				if idleTicks >= BlockedTicks {
+					for _, w := range workers {
+						if w.tid.Load() == 0 || w.fam == nil {
+							continue
+						}
+						d, _ := json.Marshal(D{"blocked_ticks": idleTicks, "op": w.Op, "a": w.A, "b": w.B, "c": w.C,
+							"note": "the process consumed no CPU for this many consecutive watchdog ticks (>= 1 s each) while this case was in flight: the call is blocked and does not return"})
+						res.Violations = append(res.Violations, Violation{Sig: "blocked/" + w.fam.Name + "/" + w.Op, Family: w.fam.Name, Idx: w.idx,
+							Flavour: cfg.Flavour, Detail: d, Count: 1})
+						res.Complete = false
+						res.WallS = time.Since(start).Seconds()
+						writeJSON(resPath, res)
+						fmt.Fprintf(os.Stderr, "BLOCKED family=%s idx=%d op=%s\n", w.fam.Name, w.idx, w.Op)
+						os.Exit(7)
+					}
+					idleTicks = 0
+				}
 			}
 			for i, w := range workers {
 				tid := w.tid.Load()
